@@ -96,6 +96,7 @@ impl Property for C11 {
             ("src:dkg".into(), m),
             ("src:refreshed".into(), m),
             ("chain:repaired-helps-repair".into(), m),
+            ("helpers-share-one-random-stream".into(), m),
             ("refused:too-few".into(), m),
             ("refused:duplicate".into(), m),
             ("refused:caller-missing".into(), m),
@@ -160,11 +161,18 @@ fn check<C: Suite>(case: &Case, ctx: &mut Ctx) -> CheckResult {
         let trivial = n == 5 && t == 3 && case.ids.style == IdStyle::Default && existing && hs == vec![0, 3, 4] && keys.ids.iter().position(|x| x == target) == Some(1);
         ctx.eval(&format!("{n},{t},{},{:?},{},{src_name},{existing}", helpers.len(), case.helpers.class, case.ids.style.name()), !trivial);
         let desc = format!("n={n} t={t} ids={} source={src_name} |H|={} repaired={} ({})", case.ids.style.name(), helpers.len(), id_hex::<C>(target), if existing { "existing" } else { "new" });
+        let shared_stream = case.seed & 3 == 2;
+        if shared_stream {
+            ctx.label("helpers-share-one-random-stream");
+        }
         // part 1 at every helper
         let xs: Vec<Sc<C>> = helpers.iter().map(|h| h.to_scalar()).collect();
         let mut deltas: BTreeMap<Id<C>, BTreeMap<Id<C>, Delta<C>>> = BTreeMap::new();
         for h in &helpers {
-            let r = repair_share_part1::<C, _>(&helper_list, &kps[h], &mut Tape::random(rng.next()), *target);
+            // one case in four: every helper's random source yields the SAME stream (cloned RNG state, VM snapshot,
+            // a test RNG): the blinding values of different helpers then coincide, which must not matter
+            let tape_seed = if shared_stream { case.seed ^ 0x5a5a } else { rng.next() };
+            let r = repair_share_part1::<C, _>(&helper_list, &kps[h], &mut Tape::random(tape_seed), *target);
             let d = match r {
                 Ok(d) => d,
                 Err(e) => return ctx.fail("C11/honest-repair-refused", format!("repair_share_part1 failed for a valid helper set: {e:?} ({desc})")),
@@ -183,7 +191,14 @@ fn check<C: Suite>(case: &Case, ctx: &mut Ctx) -> CheckResult {
         let mut sigmas: Vec<Sigma<C>> = Vec::new();
         for j in &helpers {
             let recv: Vec<Delta<C>> = helpers.iter().map(|i| deltas[i][j]).collect();
-            sigmas.push(repair_share_part2::<C>(&recv));
+            let sigma = repair_share_part2::<C>(&recv);
+            // part 2 is the plain sum of what the helper received
+            let mut sum = zero::<C>();
+            for d in &recv {
+                sum = sum + d.to_scalar();
+            }
+            ensure!(ctx, sigma.to_scalar() == sum, "C11/sigma-is-not-the-sum-of-deltas", "repair_share_part2 of helper {} is not the sum of the {} deltas it received (equal values among them: {}) ({desc})", id_hex::<C>(j), recv.len(), recv.iter().enumerate().any(|(a, x)| recv[..a].iter().any(|y| y.to_scalar() == x.to_scalar())));
+            sigmas.push(sigma);
         }
         // part 3
         let kp = match repair_share_part3::<C>(&sigmas, *target, &pubkeys) {
